@@ -1033,9 +1033,15 @@ def struct_unpack_from(I, args, kw):
     return struct_unpack(I, args, kw, prefix_ok=True)
 
 
+def m_iter(I, args, kw):
+    """iter(x) for sequences / lists: the engine iterates the container itself."""
+    return args[0]
+
+
 def build_models():
     import struct
     m = {
+        builtins.iter: m_iter,
         builtins.isinstance: m_isinstance, builtins.type: m_type, builtins.len: m_len, builtins.bytes: m_bytes,
         builtins.bytearray: m_bytearray, builtins.list: m_list, builtins.tuple: m_tuple, builtins.dict: m_dict,
         builtins.int: m_int, builtins.float: m_float, builtins.bool: m_bool, builtins.str: m_str,
